@@ -76,6 +76,42 @@ class Collector:
         self.stats['solver_time_s'] += dt
         return str(r), (s.model() if r == z3.sat else None), dt
 
+    def solve_cvc5(self, terms, timeout_ms=None, want=()):
+        """Same query through cvc5 (floating-point queries: ~3x faster than z3's bit-blaster here).
+        Returns (verdict, {name: int value} for the bit-vector constants named in `want`, seconds)."""
+        import cvc5
+        s = z3.Solver()
+        s.add(*terms)
+        text = '(set-logic QF_BVFP)\n' + s.to_smt2()
+        text = text.replace('(check-sat)', '')
+        slv = cvc5.Solver()
+        slv.setOption('produce-models', 'true')
+        slv.setOption('tlimit-per', str(timeout_ms or self.timeout_ms))
+        parser = cvc5.InputParser(slv)
+        parser.setStringInput(cvc5.InputLanguage.SMT_LIB_2_6, text, 'query')
+        sm = parser.getSymbolManager()
+        t0 = time.time()
+        while True:
+            cmd = parser.nextCommand()
+            if cmd.isNull():
+                break
+            out = cmd.invoke(slv, sm)
+            if '(error' in out:
+                raise RuntimeError('cvc5: ' + out)
+        r = slv.checkSat()
+        dt = time.time() - t0
+        self.stats['queries'] += 1
+        self.stats['solver_time_s'] += dt
+        verdict = 'sat' if r.isSat() else 'unsat' if r.isUnsat() else 'unknown'
+        vals = {}
+        if verdict == 'sat':
+            for name in want:
+                for term in sm.getDeclaredTerms():
+                    if str(term) == name:
+                        v = slv.getValue(term)
+                        vals[name] = int(v.getBitVectorValue(10))
+        return verdict, vals, dt
+
     def prove(self, oid, assumptions, negated_goal, witness_fn: Optional[Callable] = None,
               detail='', timeout_ms=None):
         """Discharge: assumptions /\\ negated_goal must be unsat."""
